@@ -17,6 +17,23 @@ The scratch copies live under a mktemp directory outside /repo and /verif and ar
 import argparse, ast, copy, importlib, json, os, random, shutil, subprocess, sys, tempfile, time
 from concurrent.futures import ThreadPoolExecutor
 
+def run_group(cmd, timeout, **kw):
+    """subprocess.run(capture_output=True, text=True) in its own process group; on timeout the WHOLE group is killed (the driver
+    forks solver workers: killing only the parent leaves them spinning for hours)"""
+    import signal
+    p = subprocess.Popen(cmd, stdout=subprocess.PIPE, stderr=subprocess.PIPE, text=True, start_new_session=True, **kw)
+    try:
+        out, err = p.communicate(timeout=timeout)
+    except subprocess.TimeoutExpired:
+        try:
+            os.killpg(p.pid, signal.SIGKILL)
+        except ProcessLookupError:
+            pass
+        p.communicate()
+        raise
+    return subprocess.CompletedProcess(cmd, p.returncode, out, err)
+
+
 HERE = os.path.dirname(os.path.dirname(os.path.abspath(__file__)))
 sys.path.insert(0, HERE)
 REPO = os.environ.get('PYVC_REPO', '/repo')
@@ -215,8 +232,8 @@ def run_mutant(job):
     try:
         for prop, idents in sorted(props.items()):
             globs = ',,'.join(sorted(idents | structural.get(prop, set())))
-            p = subprocess.run(['python3-vt', '-m', 'pyvc.driver', prop, '--no-evidence', '--no-replay', '--jobs', str(jobs_per), '--fuc', globs],
-                               cwd=HERE, capture_output=True, text=True, timeout=1800, env=dict(os.environ, PYVC_REPO=d))
+            p = run_group(['python3-vt', '-m', 'pyvc.driver', prop, '--no-evidence', '--no-replay', '--jobs', str(jobs_per), '--fuc', globs],
+                               timeout=1800, cwd=HERE, env=dict(os.environ, PYVC_REPO=d))
             fails = [l.split(' [path')[0].replace('failed obligation: ', '') for l in p.stdout.splitlines() if l.startswith('failed obligation')]
             other = [l[:200] for l in p.stdout.splitlines() if l.startswith(('UNDECIDED', 'CHECKER-ERROR'))][:3]
             res['checks'][prop] = {'exit': p.returncode, 'failed': fails[:4], 'other': other}
